@@ -41,3 +41,6 @@
 (declare-fun lsum (Int) Int)
 ; rkindOf(t): the reflect.Kind of a reflect.Type value (named; see externs.gvc)
 (declare-fun rkindOf (Any) Int)
+; kcnt(key, k): how many of the first k travelers of a field aggregation's input have an object with that key
+; at the aggregated field (defined by contract axioms)
+(declare-fun kcnt (Str Int) Int)
